@@ -225,6 +225,10 @@ impl Fam for String {
     fn inhabitants(b: &Budget) -> Vec<Self> {
         let mut v: Vec<String> = ["", "a", "a b", "\"\\", "λ€😀", "\n\t\0\x7f", "nil", "Unit", "(;|#"].iter().map(|s| s.to_string()).collect();
         v.push("x".repeat(b.long));
+        // long multi-byte text at both alignments (anything that cuts or copies text by byte count)
+        v.push("é".repeat(60));
+        v.push(format!("a{}", "€".repeat(40)));
+        v.push(format!("ab{}\n\"\\", "😀".repeat(30)));
         v
     }
     fn sh(&self) -> Sh {
